@@ -17,7 +17,7 @@ generated `_Transformer` does:
 * The result is a generator: `VRes` keeps the errors yielded so far and the exception (if
   any) that ended the iteration.
 -/
-namespace AasVerif.Sdk
+namespace AasVerif.SdkV
 open AasVerif AasVerif.Expr
 
 /-- Shape of a property type beneath `Optional`, as the snippet generator dispatches on it. -/
@@ -156,4 +156,4 @@ end
 /-- `verification.verify(instance)`. -/
 def verify (m : MM) (ρ : Env) (that : Val) : VRes := verifyInst m ρ that
 
-end AasVerif.Sdk
+end AasVerif.SdkV
